@@ -34,6 +34,8 @@ type c19Input struct {
 	Names    []string    `json:"names"`
 	Queries  []string    `json:"queries"`
 	Optimize []bool      `json:"optimize"`
+	// Folder: the snapshot is unpacked and imported from the folder (lmd -import <dir>) instead of the tarball
+	Folder bool `json:"folder,omitempty"`
 }
 
 func init() {
@@ -52,6 +54,47 @@ func c19WorkDir() string {
 type c19Files struct {
 	order   []string            // entry names in tar order
 	headers map[string][]string // sites/<id>/<table>.json -> header row
+}
+
+// c19Unpack extracts the snapshot tarball into dir (what `tar xzf` does).
+func c19Unpack(tarPath, dir string) error {
+	fh, err := os.Open(tarPath)
+	if err != nil {
+		return err
+	}
+	defer fh.Close()
+	gz, err := gzip.NewReader(fh)
+	if err != nil {
+		return err
+	}
+	rd := tar.NewReader(gz)
+	for {
+		hdr, err := rd.Next()
+		if err == io.EOF {
+			return nil
+		}
+		if err != nil {
+			return err
+		}
+		target := filepath.Join(dir, filepath.Clean("/"+hdr.Name))
+		switch hdr.Typeflag {
+		case tar.TypeDir:
+			if err = os.MkdirAll(target, 0o755); err != nil {
+				return err
+			}
+		case tar.TypeReg:
+			if err = os.MkdirAll(filepath.Dir(target), 0o755); err != nil {
+				return err
+			}
+			body, err := io.ReadAll(rd)
+			if err != nil {
+				return err
+			}
+			if err = os.WriteFile(target, body, 0o644); err != nil {
+				return err
+			}
+		}
+	}
 }
 
 func c19ReadTar(path string) (*c19Files, error) {
@@ -187,8 +230,18 @@ func c19RunCase(idx int, in *c19Input, intern *c02Intern) (res *c19Result) {
 		return res
 	}
 	lmdB := verifNewDaemon()
-	lmdB.flags.flagImport = tarPath
-	if err = initializePeersWithImport(lmdB, tarPath); err != nil {
+	importPath := tarPath
+	if in.Folder {
+		importPath = strings.TrimSuffix(tarPath, ".tgz") + ".d"
+		defer os.RemoveAll(importPath)
+		if err = c19Unpack(tarPath, importPath); err != nil {
+			res.err = "unpack: " + err.Error()
+
+			return res
+		}
+	}
+	lmdB.flags.flagImport = importPath
+	if err = initializePeersWithImport(lmdB, importPath); err != nil {
 		res.err = "import: " + err.Error()
 
 		return res
@@ -537,8 +590,9 @@ func c19Main(args []string) int {
 		inputs = c19ReadReplay(flags.replay)
 	} else {
 		rnd := newVRand(flags.seed)
-		for range flags.n {
+		for k := range flags.n {
 			in := c19Gen(rnd.fork(), meta.Histogram, flags.tier)
+			in.Folder = k%2 == 1
 			// same path as a replayed input
 			buf, _ := json.Marshal(in)
 			dec := json.NewDecoder(strings.NewReader(string(buf)))
